@@ -16,7 +16,7 @@ PROP = "X08"
 MODULE_MC = "MC_Installation"
 MODULE_T = "T_Installation"
 DRV = "drv_installation"
-ALL_DEVS = ["FX08" + c for c in "abcdefghij"]
+ALL_DEVS = ["FX08" + c for c in "abcdefghijk"]
 COUNTERS = ["n_chain", "n_chain_ok", "n_exact", "n_nf", "n_alias", "n_verify", "n_stats", "n_raw", "n_stor", "n_refused", "n_binfo",
             "n_active", "n_val", "n_batch", "n_krfile", "n_krflip", "n_kifile", "n_kiflip"]
 DROP = ("seq", "res", "obs", "md5", "md5s", "len", "ck", "ek", "size", "pathok", "st", "fs", "v", "hit", "lhdr", "blte", "data", "off_", "audit",
@@ -91,7 +91,7 @@ def mc_one(ctx, c):
     """TLC on one configuration: design invariants (CodeDevs = {}), every program printed."""
     tag = tag_of(c)
     cfg = ctx.path(f"mc_{tag}.cfg")
-    invs = ["Emit"] + (["Refines", "I2Direct", "I5Direct"] if c["fam"] in ("chain", "cache", "dur") else [])
+    invs = ["Emit"] + (["Refines", "I2Direct", "I5Direct"] if c["fam"] in ("chain", "cache", "dur", "repair") else [])
     lib.write_cfg(cfg, {"KnownDeviations": "{}", "Family": f'"{c["fam"]}"', "D": c["D"], "Alpha": f'"{c["alpha"]}"', "CodeDevs": "{}"},
                   "MCInit", "MCNext", constraints=["Constr"], invariants=invs)
     progs = ctx.path(f"prog_{tag}.ndjson")
@@ -130,10 +130,10 @@ def cfgs(quick):
     def c(fam, alpha, D, workers=1):
         return dict(fam=fam, alpha=alpha, D=D, workers=workers)
     if quick:
-        return [c("chain", "full", 3), c("chain", "lean", 4), c("cache", "full", 3), c("dur", "lean", 3), c("dur", "full", 2),
+        return [c("chain", "full", 3), c("chain", "lean", 4), c("cache", "full", 3), c("dur", "lean", 3), c("dur", "full", 2), c("repair", "lean", 2),
                 c("stor", "lean", 3), c("stor", "full", 2), c("binfo", "lean", 2), c("binfo", "full", 1), c("val", "full", 0),
                 c("kres", "full", 3), c("kresflip", "full", 1), c("kidx", "full", 4), c("kidxflip", "full", 1)]
-    return [c("chain", "full", 4, 2), c("chain", "lean", 5, 2), c("cache", "full", 4, 2), c("dur", "lean", 4, 2), c("dur", "full", 3),
+    return [c("chain", "full", 4, 2), c("chain", "lean", 5, 2), c("cache", "full", 4, 2), c("dur", "lean", 4, 2), c("dur", "full", 3), c("repair", "lean", 3),
             c("stor", "lean", 4, 2), c("stor", "full", 3), c("binfo", "full", 3, 2), c("val", "full", 0),
             c("kres", "full", 4, 2), c("kresflip", "full", 2), c("kidx", "full", 5, 2), c("kidxflip", "full", 2)]
 
@@ -193,6 +193,11 @@ def run(ctx):
         return replay(ctx, kd)
     totals = {"events": 0}
     plan = cfgs(ctx.quick)
+    only = [x for x in os.environ.get("VERIF_X08_ONLY", "").split(",") if x]
+    if only:
+        # development aid (like VERIF_REPO): run only some families, e.g. to look at one mutation.  The run is then
+        # inconclusive by construction (exit 2 unless a violation is found).  Registered commands never set it.
+        plan = [c for c in plan if c["fam"] in only]
     with ThreadPoolExecutor(max_workers=max(2, min(lib.NCPU, 8))) as ex:
         fut_ref = ex.submit(model_refutations, ctx)
         res = list(ex.map(lambda c: mc_one(ctx, c), plan))
@@ -211,6 +216,16 @@ def run(ctx):
     for _, _, r in ref:
         ctx.cov["states"] += r["distinct"]
         ctx.cov["transitions"] += r["generated"]
+    # scripted: the key rule I7 on payloads around the MD5 block boundaries (the bytes are judged by the TLA+ MD5 / lookup3)
+    sizes = [0, 1, 20, 46, 47, 55, 56, 64, 100, 119, 120, 300] if ctx.quick else [0, 1, 20, 46, 47, 55, 56, 64, 100, 119, 120, 300, 1000, 4096]
+    with open(allprogs, "a") as out:
+        for i, n in enumerate(sizes):
+            cls = ["plain", "comp", "nested"][i % 3]
+            m = max(n, 10) if cls == "nested" else n
+            prog = {"fam": "inst", "payloads": [["a", cls, m], ["b", "plain", 7 + i]], "roots": {}, "encs": {}, "paths": {},
+                    "ops": [{"op": "write", "p": "b"}, {"op": "write", "p": "a"}, {"op": "raw", "p": "a"}, {"op": "raw", "p": "b"}, {"op": "raw", "p": "a"}]}
+            out.write(json.dumps(prog) + "\n")
+            total_programs += 1
     _, distinct = lib.count_distinct(allprogs)
     trace = ctx.path("trace_mc.ndjson")
     d = lib.run_sharded(ctx, DRV, allprogs, trace, shards=min(lib.NCPU, 12))
@@ -234,6 +249,10 @@ def run(ctx):
         ctx.cov["binding_selftest"] = {"skipped": "violations were reported"}
     else:
         selftest(ctx, trace, kd)
+    if only:
+        if ctx.violations:
+            return lib.finish(ctx, "model_checking", rule="partial run (VERIF_X08_ONLY)")
+        raise lib.ToolError(f"partial run over {only}: no violation in {total_programs} programs (inconclusive by construction)")
     # seeded random Installation histories
     nrand, rlen = (60, 60) if ctx.quick else (1500, 90)
     rtrace = ctx.path("trace_random.ndjson")
